@@ -561,13 +561,34 @@ fn add_ids(mathml: Element) -> Element {
     #[cfg(mathcat_verif)]
     let random_part = match crate::verif_hooks::env() { Some(env) => radix_fmt::radix(env.random_usize(), 36).to_string(), None => random_part };
     let prefix = "M".to_string() + &time_part[time_part.len() - 3..] + &random_part[random_part.len() - 4..] + "-"; // begin with letter
-    add_ids_to_all(mathml, &prefix, 0);
+    // the input might be MathML that MathCAT returned earlier, so it could already have ids with this prefix (they must be skipped)
+    let mut ids_with_prefix = Vec::new();
+    gather_ids_with_prefix(mathml, &prefix, &mut ids_with_prefix);
+    add_ids_to_all(mathml, &prefix, &ids_with_prefix, 0);
     return mathml;
 
-    fn add_ids_to_all(mathml: Element, id_prefix: &str, count: usize) -> usize {
+    fn gather_ids_with_prefix(mathml: Element, id_prefix: &str, ids: &mut Vec<String>) {
+        if let Some(id) = mathml.attribute_value("id") {
+            if id.starts_with(id_prefix) {
+                ids.push(id.to_string());
+            }
+        }
+        for child in mathml.children() {
+            if let Some(child) = child.element() {
+                gather_ids_with_prefix(child, id_prefix, ids);
+            }
+        }
+    }
+
+    fn add_ids_to_all(mathml: Element, id_prefix: &str, ids_in_use: &[String], count: usize) -> usize {
         let mut count = count;
         if mathml.attribute("id").is_none() {
-            mathml.set_attribute_value("id", (id_prefix.to_string() + &count.to_string()).as_str());
+            let mut id = id_prefix.to_string() + &count.to_string();
+            while ids_in_use.contains(&id) {
+                count += 1;
+                id = id_prefix.to_string() + &count.to_string();
+            }
+            mathml.set_attribute_value("id", id.as_str());
             mathml.set_attribute_value("data-id-added", "true");
             count += 1;
         };
@@ -578,7 +599,7 @@ fn add_ids(mathml: Element) -> Element {
 
         for child in mathml.children() {
             let child = as_element(child);
-            count = add_ids_to_all(child, id_prefix, count);
+            count = add_ids_to_all(child, id_prefix, ids_in_use, count);
         }
         return count;
     }
